@@ -89,7 +89,7 @@ def run_statics(prog, rec):
                'mutable object with static storage %s (%s) is %s' % (
                    q, t.get('s'), 'never read by an operation (write-only / self-updating counter)' if not reads else
                    'read at %s: its value survives from one operation to the next' % [nloc(x) for _, x in reads[:3]]))
-    rec.count('R15.d mutable statics', n, 6)
+    rec.count('R15.d mutable statics', n, 3)
 
 
 def scoped_statics(prog, rec, rule, key, dirs, what):
